@@ -377,6 +377,8 @@ class Interp:
                     return self.cond(sub, env)
                 finally:
                     self.depth -= 1
+        if e[0] == 'bin' and e[1] == '>' and self.unsigned_cast(e[2]) and self.unsigned_cast(e[3]):
+            e = ('bin', '<', e[3], e[2])          # (size_t)b > (size_t)a  is  (size_t)a < (size_t)b
         if e[0] == 'bin' and e[1] == '<' and self.unsigned_cast(e[2]) and self.unsigned_cast(e[3]):
             # (size_t)a < (size_t)b with b >= 0  <=>  0 <= a < b
             work = env.copy()
